@@ -1,6 +1,6 @@
 (* C16 — property theorems (on the specification side: k8s/Spec.v is what the C16 check compares the generated servers with). *)
 From Coq Require Import List String ZArith Bool.
-From NGF Require Import lib.Str k8s.State k8s.Spec C16.SecretProofs.
+From NGF Require Import lib.Str k8s.State k8s.Spec C16.SecretProofs C16.PolMatch C16.PolMatchProofs.
 Import ListNotations.
 
 (* A backend whose BackendTLSPolicy is invalid (missing CA ConfigMap, ...) is never in effect. *)
@@ -34,3 +34,31 @@ Proof. exact expected_secret_sound. Qed.
 Theorem C16_unusable_secret_invalidates_listener : forall cs g l,
   l_proto l = PHTTPS -> cert_ok cs g l = false -> listener_valid cs g l = false.
 Proof. exact unusable_secret_invalidates_listener. Qed.
+
+(* ---- "a rule whose backends disagree on TLS policy serves none of them" (model of validateBackendTLSPolicyMatchingAllBackends,
+   C16/PolMatch.v, compared with the real function on every run). [bmeaning]: the ConfigMaps (namespace of the policy, reference), the
+   well-known setting and the hostname a backend's policy stands for, or none. *)
+
+(* a rule that is not rejected has backends that all mean the same verification, for every list of backends *)
+Theorem C16_accepted_rule_backends_agree_on_verification :
+  forall bs, mismatch bs = false -> forall b1 b2, In b1 bs -> In b2 bs -> bmeaning b1 = bmeaning b2.
+Proof. exact no_mismatch_all_agree. Qed.
+
+(* the single set of proxy_ssl directives of the location, taken from the first backend that has a policy, is that of every backend *)
+Theorem C16_location_verification_is_every_backends :
+  forall bs, mismatch bs = false -> forall b, In b bs -> bmeaning b = option_map meaning (first_policy bs).
+Proof. exact location_settings_are_every_backends. Qed.
+
+(* nothing is rejected needlessly: backends whose policies are written alike in one namespace pass, and so do backends without any *)
+Theorem C16_alike_policies_are_not_rejected :
+  forall q bs,
+  (forall b, In b bs -> exists p, b = Some p /\ tp_ns p = tp_ns q /\ tp_refs p = tp_refs q /\
+                                  tp_wellknown p = tp_wellknown q /\ tp_host p = tp_host q) ->
+  mismatch (Some q :: bs) = false.
+Proof. exact alike_policies_pass. Qed.
+
+(* comparing the CA references as written, as the code did before the repair of D43, equates policies that verify against different
+   ConfigMaps *)
+Theorem C16_comparison_of_references_as_written_refuted :
+  exists p q, differ_as_written p q = false /\ meaning p <> meaning q.
+Proof. exact as_written_comparison_refuted. Qed.
